@@ -68,26 +68,34 @@ def no_double_booking(spec: Spec, vals: dict, obs: dict, info: dict) -> list[str
             used = r["used"].get(slot, 0)
             if used > g + EPS or used + EPS < total:
                 fails.append(f"C01 {r_id} slot {slot}: used-seconds counter {used} inconsistent with bookings {total}")
-            # layout: the reported intervals of the sharers, clipped to the slot, are pairwise disjoint
+            # layout: the portions can be placed inside the slot without overlapping, each inside the window its task's
+            # reported dates leave it: from the task's start if this is its first booked slot, up to its end if this is its
+            # last.  Feasibility (one machine, release/deadline windows, preemption allowed) = for every window [a, b] built
+            # from those endpoints, the portions whose windows lie inside [a, b] sum to at most b - a.
             lo, hi = slot * g, (slot + 1) * g
-            seen: list[tuple[str, Any, Any]] = []
+            wins: list[tuple[str, Any, Any, Any]] = []
             for t_id, s in lst:
                 if s <= EPS:
                     continue
                 t = obs["tasks"][t_id]
                 if t["start"] is None or t["end"] is None:
                     continue
-                a = t["start"] if t["start"] > lo else lo
-                b = t["end"] if t["end"] < hi else hi
-                for (o_id, oa, ob) in seen:
-                    if o_id == t_id:
+                mine = [sl for sl, l2 in r["ledger"].items() if any(x == t_id and y > EPS for x, y in l2)]
+                a = t["start"] if (slot == min(mine) and t["start"] > lo) else lo
+                b = t["end"] if (slot == max(mine) and t["end"] < hi) else hi
+                wins.append((t_id, a, b, s))
+            for (_i, a, _b, _s) in wins:
+                for (_j, _a2, b, _s2) in wins:
+                    if not (b > a):
                         continue
-                    # overlap longer than the rounding tolerance
-                    left = a if a > oa else oa
-                    right = b if b < ob else ob
-                    if right - left > TOL:
-                        fails.append(f"C01 {r_id} slot {slot}: reported intervals of {o_id} and {t_id} overlap inside the slot")
-                seen.append((t_id, a, b))
+                    need = 0
+                    inside = []
+                    for (k, wa, wb, ws) in wins:
+                        if wa >= a and wb <= b:
+                            need = need + ws
+                            inside.append(k)
+                    if len(inside) > 1 and need - (b - a) > TOL * len(inside):
+                        fails.append(f"C01 {r_id} slot {slot}: tasks {inside} need {need} s inside a window of {b - a} s of the slot - their reported portions overlap")
     return fails
 
 
